@@ -140,6 +140,7 @@ type FuncVerifier struct {
 	bindErrors     []string
 	globalWrites   []string
 	yieldVar       *types.Var
+	nondet         []string // sources of nondeterminism met while executing (for `functional`)
 }
 
 func (fv *FuncVerifier) note(format string, args ...any) {
